@@ -47,21 +47,16 @@ Proof.
   destruct k; reflexivity.
 Qed.
 
-(* outside the grammar: what the code does on the two other spellings of Optional[X] (faithful model, used for
-   the known finding and the recorded observation) *)
-Lemma refuted_union_none_first : forall c d df,
-  type_endpoint {| resolved_type := OptionalL (Cls c); has_default := d; has_default_factory := df |} = Ok (Builtin BNoneType)
-  /\ is_builtin_type {| resolved_type := OptionalL (Cls c); has_default := d; has_default_factory := df |} = Ok true.
-Proof. intros. split; reflexivity. Qed.
-
+(* outside the grammar: what the code does on `X | None` (faithful model; recorded observation) *)
 Lemma observed_pep604 : forall c d df,
   let f := {| resolved_type := Pep604 (Cls c); has_default := d; has_default_factory := df |} in
   is_optional f = Ok false /\ type_endpoint f = Ok (Pep604 (Cls c)) /\ is_enum f = Raise TypeError.
 Proof. intros. repeat split; reflexivity. Qed.
 
-Lemma union_none_first_refuted : exists f : wfield,
-  s_optional (resolved_type f) = true /\ kinds_of f <> Ok (spec_kind (resolved_type f)).
-Proof.
-  exists {| resolved_type := OptionalL (Cls 1%positive); has_default := false; has_default_factory := false |}.
-  split; [reflexivity | vm_compute; discriminate].
-Qed.
+(* regression (repaired in /repo by 90ccf0e): taking get_args(...)[0] as the contained type of an optional field, as
+   the code did before, answers NoneType for Union[None, X]; the translated code now answers X *)
+Lemma union_none_first_regression : forall c d df,
+  index0 (get_args (OptionalL (Cls c))) = Ok (Builtin BNoneType)
+  /\ type_endpoint {| resolved_type := OptionalL (Cls c); has_default := d; has_default_factory := df |} = Ok (Cls c)
+  /\ is_builtin_type {| resolved_type := OptionalL (Cls c); has_default := d; has_default_factory := df |} = Ok false.
+Proof. intros. repeat split; reflexivity. Qed.
